@@ -58,6 +58,7 @@ func checkC02(c *Check) {
 	c12StagingFilePerMessage(c, "R14")
 	c.Rule("R15", "deliver: a failure of Body / Commit is recorded for every accepted recipient (C01.R2) – a recipient without a recorded failure counts as delivered and is dropped from the spooled record, so that neither this process nor a restart attempts it again", 3)
 	importRules(c, "C01", c01Deliver, map[string]bool{"R2": true}, "R15")
+	c02AttemptEndsRemovedOrScheduled(c, "R16")
 	c02ErrorsNotSwallowed(c)
 	c02CleanupOnlyWhenGone(c)
 }
